@@ -84,8 +84,17 @@ def structural(ctx, rng, count, all32):
 def moment_audit(ctx, rng, c, line, io, b, pinned=None):
     """returns (description of a violated row block, the point and scale) or None; `pinned` = [(point, scale)] to try first"""
     inst = c['inst']
+    Cmat = dvec = None
     if inst['v'] is not None and not inst.get('vdiag'):
-        return None          # v = C w + d with general C: a w with C w + d = t*exp(alpha x) need not exist
+        # v = C w + d with general C: a w with C w + d = t*exp(alpha x) exists for every moment vector when C has full row rank
+        nuser = int(b.user.size)
+        Cmat = np.zeros((len(inst['v']), nuser))
+        for j, sp in enumerate(inst['v']):
+            for k, cv in sp['co']:
+                Cmat[j, k] += float(F(cv))
+        dvec = np.array([float(F(sp['off'])) for sp in inst['v']])
+        if np.linalg.matrix_rank(Cmat) < Cmat.shape[0] or inst.get('xscale'):
+            return None      # (the rescaled family has entries of size 2^43: a numerically solved w is not exact enough there)
     alpha = np.array([[float(F(x)) for x in r] for r in inst['alpha']], dtype=float)
     m, n = alpha.shape
     pts = sm.domain_points(inst['X'], n, rng, 6, lifted=True)
@@ -99,6 +108,13 @@ def moment_audit(ctx, rng, c, line, io, b, pinned=None):
             v = t * np.exp(alpha @ x)
             if inst['v'] is None:
                 sigma = {vid: float(v[j]) for j, vid in enumerate(vids)}
+            elif Cmat is not None:
+                if t > 0 and float(np.max(v)) > 1e3 * float(np.min(v)):
+                    continue     # (entries of very different size: a numerically solved w reproduces the small ones too coarsely)
+                w = np.linalg.lstsq(Cmat, v - dvec, rcond=None)[0]
+                if np.max(np.abs(Cmat @ w + dvec - v)) > 1e-12 * max(1.0, float(np.max(np.abs(v)))):
+                    continue
+                sigma = {vid: float(w[j]) for j, vid in enumerate(vids)}
             else:   # w_j = (v_j - d_j) / a_j
                 sigma = {vids[j]: (float(v[j]) - float(F(sp['off']))) / float(F(sp['co'][0][1])) for j, sp in enumerate(inst['v'])}
             for d in line['ids']:
